@@ -63,7 +63,11 @@ class Fn:
             ops = [m for m in astload.walk(lam) if m.get('kind') == 'CXXMethodDecl' and m.get('name') == 'operator()']
             if not ops:
                 raise ExtractionError(f'{self.cname}: lambda without operator()')
-            d = ops[0]
+            # generic lambda (auto parameter): the pattern operator() is dependent; take the instantiated specialisation
+            inst = [m for m in ops if astload.template_args(m) and astload.has_body(m)]
+            if len(inst) > 1:
+                raise ExtractionError(f'{self.cname}: generic lambda with {len(inst)} instantiations')
+            d = inst[0] if inst else ops[0]
         elif self.captures:
             raise ExtractionError(f'{self.cname}: captures=True without lambda_index')
         P = cxx2c.Printer(self.cname, self.types, self.calls, self.members, self.hooks, self.self_struct,
